@@ -52,7 +52,12 @@ def run_worker(task, repo, timeout, hashseed='0', extra_env=None, cache_dir=None
         for line in reversed(p.stdout.splitlines()):
             if line.startswith(marker):
                 return json.loads(line[len(marker):]), ''
-        return None, 'worker exit %s without result: %s' % (p.returncode, (p.stderr or p.stdout)[-2000:])
+        err = p.stderr or p.stdout or ''
+        i = err.find('Fatal Python error')
+        if os.environ.get('VERIF_CRASH_DIR'):
+            with open(os.path.join(os.environ['VERIF_CRASH_DIR'], 'crash_%d.log' % os.getpid()), 'a') as fp:
+                fp.write(json.dumps(task)[:300] + '\n' + err + '\n=====\n')
+        return None, 'worker exit %s without result: %s' % (p.returncode, err[i:i + 1500] if i >= 0 else err[-1500:])
     except subprocess.TimeoutExpired:
         return None, 'worker timed out after %ss' % timeout
     finally:
